@@ -133,6 +133,19 @@ CHECKS = {
               "resample_to_approx_dt on random trigonometric polynomials below the new Nyquist frequency recomputed by TLC (1e-9)."),
         design_ref="DESIGN.md section 4, C14",
         note=LEVEL_NOTE_N + "; Fourier exactness only where the returned grid spans the same period"),
+    "C20": dict(
+        engine="Helpers",
+        technique="TLA+ definitions (clamped linear table interpolation, left interpolation, edge-replicated rolling mean, step-fit error and levels, NZS 1170.5 relations); TLC exhaustive over all short integer series with the implementation in lock-step; TLC trace validation on node-set grids, random inputs and design-spectrum relation events",
+        category="model_checking",
+        text=("MC_Helpers: every series over {-2..2} to length 5 (quick) / 6 (thorough): calc_roll_av_vals for every window 1..n in three "
+              "modes, calc_step_fn_vals_error for pow 1 and 2 (float and integer input), calc_step_fn_steps_vals at every split, against the "
+              "definitions; ConstPreserved, WindowOneIdentity, ErrNonNeg, PerfectStepZero on the model. Trace_Helpers: interp2d / interp_left "
+              "on every monotone node subset (size 3..5) of a lattice with queries on, between and outside the nodes (arrays, scalar, "
+              "y=None) and on random tables; rolling average / step fit on random series incl. all-negative data; c_h_factor / sd_nzs / "
+              "t_eff for classes C, D, E: S_d = C_h T^2 Z N R on both sides of every boundary, continuity to 1 %, array = scalar, "
+              "t_eff inverts the corner displacement and raises above it."),
+        design_ref="DESIGN.md section 4, C20",
+        note=LEVEL_NOTE_N + "; one open known finding (integer-input truncation pinned by an existing test)"),
 }
 
 NOT_YET = {}
